@@ -88,7 +88,9 @@ def _enc_rows(args):
                 used_iv = iv
                 got_iv = bytes.fromhex(r["pl"]["iv"]) if r["status"] == "Success" and r["pl"].get("iv") else None
                 if spec.get("returnsIV") and r["status"] == "Success":
-                    if got_iv is None or len(got_iv) != bs:
+                    # (its length is the server's choice - 12 or 16 bytes are both nonces GCM takes; an IV the cipher cannot
+                    # use shows below, where the reference refuses it)
+                    if not got_iv:
                         o["bad"].append("C06_generated_iv_missing_or_wrong_length")
                     used_iv = got_iv
                 elif r["status"] == "Success" and got_iv is not None and not spec.get("returnsIV"):
